@@ -213,7 +213,6 @@ Proof.
     + specialize (C5 i). lia.
   - intros i w' Hin. rewrite Eas. rewrite Eo in Hin. apply in_app_or in Hin.
     destruct Hin as [Hin|[Hin|[]]]; [eauto|]. inversion Hin; subst. apply (C2 q Hq). assumption.
-  - rewrite Hs'. discriminate.
 Qed.
 
 Lemma InvC_CWSend : forall s i s' l, InvA s -> InvC s -> step s (CWSend i) = Some (s', l) -> InvC s'.
@@ -227,8 +226,11 @@ Proof.
   simpl in W. destruct W as (Ers & Erl & Eio & q & Eq).
   pose proof (do_send_spec _ _ _ _ Ed q Eq) as D.
   destruct D as (D1 & D2 & D3 & D4 & D5 & D6 & D7 & D8 & D9 & D10 & D11 & D12 & D13 & D14).
+  assert (Hc : a_completed q = false).
+  { apply (C_nc s HC); [intros m; rewrite Eio; discriminate|assumption]. }
   eapply InvC_after_send with (s := s) (q := q) (w := true); eauto.
   - unfold is_sending. rewrite Hact. simpl. apply orb_true_r.
+  - simpl. intros m. rewrite D6, Eio. discriminate.
   - unfold is_sending. simpl. rewrite D6, Eio, D7, Hact. reflexivity.
 Qed.
 
@@ -248,12 +250,16 @@ Proof.
     pose proof (A_wk s HA w0) as W. rewrite Eact in W. specialize (W (or_introl eq_refl)).
     destruct (active_shape s HA) as [E|(w1 & E & _)]; rewrite Eact in E; inversion E; subst.
     destruct w1; simpl in *; auto. destruct W as (_ & _ & W & _). congruence. }
-  destruct S11 as [(q' & Sq & Sc & _)|[(q' & Sq & Sc & _)|(Sc & Sr & Ssc & Srs & Sqd)]].
-  - rewrite D13 in Sq. inv_some. simpl in Sc. discriminate.
-  - rewrite D13 in Sq. inv_some. simpl in Sc. discriminate.
+  assert (Hs : is_sending s = true) by (unfold is_sending; rewrite Eio; reflexivity).
+  assert (Hs' : is_sending s' = false).
+  { unfold is_sending. rewrite S9, S4, D7, Hns. destruct more; reflexivity. }
+  destruct S11 as [(q' & Sq & Sc & Se & Sr & Ssc & Srs & Sqd)|[(q' & Sq & Sc & Se & Sr & Ssc & Srs & Sqd)|(Sc & Sr & Ssc & Srs & Sqd)]].
+  - rewrite D13 in Sq. inv_some. rewrite D1, Ers in Srs. simpl in Srs.
+    eapply InvC_after_send_gone with (s := s) (q := q') (w := false); eauto; try congruence.
+  - rewrite D13 in Sq. inv_some. rewrite D1, Ers in Srs.
+    eapply InvC_after_send_gone with (s := s) (q := q') (w := false); eauto; try congruence.
   - eapply InvC_after_send with (s := s) (q := q) (w := false); eauto; try congruence.
-    + unfold is_sending. rewrite Eio. reflexivity.
-    + unfold is_sending. rewrite S9, S4, D7, Hns. destruct more; reflexivity.
+    intros m. rewrite S9. destruct more; discriminate.
 Qed.
 
 Lemma not_sending_idle : forall s w, InvA s -> active s = [w] -> is_wsend w = false -> rlock s = false ->
